@@ -95,6 +95,32 @@ class TimeSeriesMixedEdgeGraph(BaseTimeSeriesGraph, pywhy_nx.MixedEdgeGraph):
                     G.add_nodes_from((n, d.copy()) for n, d in self._node.items() if n[1] == 0)
         return G
 
+    def set_max_lag(self, lag: int):
+        """Set maximum-lag in the graph and in every edge-type sub-graph.
+
+        See :meth:`BaseTimeSeriesGraph.set_max_lag`. Every edge-type sub-graph keeps
+        its own window, so each of them adds (removes) its own nodes and homologous edges.
+        """
+        if lag <= 0:
+            raise ValueError(
+                f"Max lag must always be greater than 0, so passed in {lag} value is invalid."
+            )
+        max_lag = self.max_lag
+        if lag > max_lag:
+            self.graph["max_lag"] = lag
+            for graph in self.get_graphs().values():
+                graph.set_max_lag(lag)
+            # register the nodes at the new lags in the mixed-edge graph as well
+            for variable in self.variables:
+                self.add_node((variable, 0))
+        elif max_lag > lag:
+            for _lag in range(max_lag, lag, -1):
+                self.remove_nodes_from(self.nodes_at(t=_lag))
+            for graph in self.get_graphs().values():
+                graph.set_max_lag(lag)
+            self.graph["max_lag"] = lag
+        return self
+
     def add_edge(self, u_of_edge: TsNode, v_of_edge: TsNode, edge_type: str = "all", **attr):
         super().add_edge(u_of_edge, v_of_edge, edge_type=edge_type, **attr)
 
